@@ -511,3 +511,22 @@ Theorem parse_top_forms_datetime_reduced : forall (rs exact : bool) tzopt now fo
   Ok (mkp 1 y m d H (minute_p prec M) 0 0 (Some (match offs_value o with Some v => v | None => deftz_of tzopt end))).
 Proof. exact parse_top_datetimep. Qed.
 Print Assumptions parse_top_forms_datetime_reduced.
+
+(* ---- THE MODEL IS THE COMPILED CODE (date conversions of the compiled parser).  Gen/RustParsingDatesGen.v is Parser::ordinal_to_ymd (with its
+   `for i in 1..14` loop, the repaired `ord <= MONTHS_OFFSETS[leap][i]`, the previous / next year spills) and Parser::iso_to_ymd (with the week 00 /
+   weekday 0 checks) translated from /repo's rust/src/parsing.rs on every run by tools/vlib/rust2gallina.py — extracted by name, wrap-around arithmetic
+   explicit, Result = option (Err(..) = None: the hand model keeps the error kind only), calling the translated helpers of Gen/RustHelpersGen.v.
+   The hand model Model/IsoParse.v (rs_ordinal_to_ymd / rs_ord_loop, rs_iso_to_ymd), about which the compiled-parser theorems above speak, EQUALS that
+   translation on everything the parser can hand to these functions and far beyond: years 1..100000 (the parser reads 4 digits; year 0 is the one 4-digit
+   value excluded: there `y -= 1` wraps in u32 where the hand model computes -1), ordinals within +-100000 (3 digits), weeks and week days up to 1000. *)
+From PV Require Import Model.RustInt Gen.RustHelpersGen Gen.RustParsingDatesGen Proofs.RustParsingDatesFacts.
+
+Theorem model_is_code_rs_ordinal_to_ymd : forall year ordinal allow, 1 <= year <= 100000 -> -100000 <= ordinal <= 100000 ->
+  gen_rsp_ordinal_to_ymd year ordinal allow = rs_ordinal_to_ymd year ordinal allow.
+Proof. exact gen_rsp_ordinal_to_ymd_eq. Qed.
+Print Assumptions model_is_code_rs_ordinal_to_ymd.
+
+Theorem model_is_code_rs_iso_to_ymd : forall y w d, 1 <= y <= 100000 -> 0 <= w <= 1000 -> 0 <= d <= 1000 ->
+  gen_rsp_iso_to_ymd y w d = rs_iso_to_ymd y w d.
+Proof. exact gen_rsp_iso_to_ymd_eq. Qed.
+Print Assumptions model_is_code_rs_iso_to_ymd.
